@@ -489,6 +489,7 @@ type fakeServer struct {
 	storage *core.Storage
 	bc      *core.BasicCluster
 	lastGet []*core.RegionInfo
+	onGet   func() // runs while GetRegions is "copying the tree": after the copy has been taken, before it is returned
 }
 
 func (s *fakeServer) LoopContext() context.Context { return s.ctx }
@@ -503,6 +504,9 @@ func (s *fakeServer) GetTLSConfig() *grpcutil.TLSConfig   { return &grpcutil.TLS
 func (s *fakeServer) GetBasicCluster() *core.BasicCluster { return s.bc }
 func (s *fakeServer) GetRegions() []*core.RegionInfo {
 	s.lastGet = s.bc.GetRegions()
+	if s.onGet != nil {
+		s.onGet()
+	}
 	return s.lastGet
 }
 
@@ -568,6 +572,12 @@ func newNode(name string, persisted *uint64, useRS bool) *node {
 
 // newNodeEnc: with enc the node's storage encrypts the region keys at rest (a non-default configuration of PD)
 func newNodeEnc(name string, persisted *uint64, useRS, enc bool) *node {
+	return newNodeOn(kv.NewMemoryKV(), name, persisted, useRS, enc)
+}
+
+// newNodeOn: a member whose Storage sits on `base`. The members of one PD cluster share the base kv (the cluster's etcd
+// below /pd/<cluster-id>); what is the member's own is its leveldb region storage.
+func newNodeOn(base kv.Base, name string, persisted *uint64, useRS, enc bool) *node {
 	dir, err := os.MkdirTemp("", "c16-"+name+"-")
 	if err != nil {
 		panic(err)
@@ -586,7 +596,7 @@ func newNodeEnc(name string, persisted *uint64, useRS, enc bool) *node {
 			panic(err)
 		}
 	}
-	st := core.NewStorage(kv.NewMemoryKV(), core.WithRegionStorage(rs), core.WithEncryptionKeyManager(km))
+	st := core.NewStorage(base, core.WithRegionStorage(rs), core.WithEncryptionKeyManager(km))
 	if useRS {
 		st.SwitchToRegionStorage()
 	}
@@ -1236,6 +1246,88 @@ func halfOpenProbe(R *res.Result, seed uint64) {
 	}()
 }
 
+type capStream struct {
+	pdpb.PD_SyncRegionsServer
+	msgs []Msg
+}
+
+func (c *capStream) Send(resp *pdpb.SyncRegionResponse) error {
+	c.msgs = append(c.msgs, snapshot(resp))
+	return nil
+}
+
+// fullSyncTwiceProbe: two full synchronisations in a row. While the leader collects the regions for the first one, a
+// region change is cached and recorded (RunServer does that concurrently with the handlers): the first follower may
+// miss it - it gets it with the next broadcast. Nothing changes afterwards. A second follower that asks for a full
+// synchronisation then - a completely quiet leader - must be sent the regions as the leader holds them NOW.
+func fullSyncTwiceProbe(R *res.Result, seed uint64) {
+	R.Count("probe:full-sync-twice")
+	r := rng.New(seed ^ 0x2f5a)
+	leader := newNode("leader", u64p(700), true)
+	defer func() { leader.cancel(); leader.rs.Close(); os.RemoveAll(leader.dir) }()
+	base := genRegions(r, 60, 1, 0)
+	for _, reg := range base {
+		leader.srv.bc.PutRegion(reg.info())
+	}
+	upd := genUpdates(r, base, 3)
+	for i := range upd {
+		if upd[i].Leader == nil {
+			p := upd[i].Peers[0]
+			upd[i].Leader = &p
+		}
+		upd[i].BW += 1000 + uint64(i)
+	}
+	first := true
+	leader.srv.onGet = func() {
+		if !first {
+			return
+		}
+		first = false
+		for _, u := range upd { // what RunServer's goroutine does for a heartbeat that arrives during the copy
+			leader.srv.bc.PutRegion(u.info())
+			leader.syncer.VerifHistory().Record(u.info())
+		}
+	}
+	req := func(name string) *pdpb.SyncRegionRequest {
+		return &pdpb.SyncRegionRequest{Header: &pdpb.RequestHeader{ClusterId: 4242}, Member: &pdpb.Member{Name: name, ClientUrls: []string{"http://127.0.0.1:1"}}, StartIndex: 0}
+	}
+	s1 := &capStream{}
+	if err := leader.syncer.VerifSyncHistoryRegion(req("f1"), s1); err != nil {
+		R.Notes = append(R.Notes, "full-sync-twice probe: first synchronisation failed: "+err.Error())
+		return
+	}
+	s2 := &capStream{}
+	if err := leader.syncer.VerifSyncHistoryRegion(req("f2"), s2); err != nil {
+		R.Notes = append(R.Notes, "full-sync-twice probe: second synchronisation failed: "+err.Error())
+		return
+	}
+	sent := map[uint64]Region{}
+	for _, m := range s2.msgs {
+		for i, meta := range m.Regions {
+			reg := meta
+			if i < len(m.Leaders) && m.Leaders[i].ID != 0 {
+				l := m.Leaders[i]
+				reg.Leader = &l
+			}
+			if len(m.Stats) == len(m.Regions) {
+				reg.BW, reg.BR, reg.KW, reg.KR = m.Stats[i][0], m.Stats[i][1], m.Stats[i][2], m.Stats[i][3]
+			}
+			sent[reg.ID] = reg
+		}
+	}
+	for _, ri := range leader.srv.bc.GetRegions() {
+		h := regionOf(ri)
+		g, ok := sent[h.ID]
+		if !ok || !eqMeta(h, g) || !eqPeerPtr(h.Leader, g.Leader) || h.BW != g.BW || h.KW != g.KW {
+			R.Violate("C16:full-sync:stale-snapshot-served",
+				fmt.Sprintf("quiet leader with %d regions, next index %d; a follower asks for a full synchronisation (an earlier one raced with %d recorded changes, nothing has changed since): region %d is sent with conf_ver %d version %d leader %s bytes_written %d, the leader holds conf_ver %d version %d leader %s bytes_written %d (sent at all: %v)",
+					len(base), leader.syncer.VerifHistory().GetNextIndex(), len(upd), h.ID, g.ConfVer, g.Version, showPeer(g.Leader), g.BW, h.ConfVer, h.Version, showPeer(h.Leader), h.BW, ok),
+				map[string]interface{}{"probe": "full-sync-twice", "regions": len(base), "changes_during_first_collection": len(upd)})
+			return
+		}
+	}
+}
+
 func genCut(r *rng.R, k int) Case {
 	sizes := []int{101, 150, 230, 250}
 	n := sizes[k%len(sizes)]
@@ -1264,8 +1356,30 @@ func genCut(r *rng.R, k int) Case {
 // runSync: leader restarted over lp, records lrecs, holds `regions`; follower restarted over fp.
 // If pending != nil the follower must be in sync (lp == fp) and `pending` goes through RunServer.
 func runSync(R *res.Result, c Case) Case {
-	leader := newNode("leader", c.LP, true)
-	follower := newNodeEnc("follower", c.FP, c.UseRS, c.Enc)
+	// the two members share the cluster's base kv, each has its own region storage (with its own persisted index)
+	shared := kv.NewMemoryKV()
+	leader := newNodeOn(shared, "leader", c.LP, true, false)
+	follower := newNodeOn(shared, "follower", c.FP, c.UseRS, c.Enc)
+	own := func(p *uint64) uint64 {
+		if p == nil {
+			return 0
+		}
+		return *p
+	}
+	replayOf := func() map[string]interface{} {
+		return map[string]interface{}{"kind": c.Kind, "lp": own(c.LP), "fp": own(c.FP), "regions": len(c.Regions), "lrecs": len(c.LRecs), "pending": len(c.Pending)}
+	}
+	// the restart clause, member by member: a member that starts over its own persisted index starts at that index
+	for _, m := range []struct {
+		n *node
+		p *uint64
+	}{{leader, c.LP}, {follower, c.FP}} {
+		if got := m.n.syncer.VerifHistory().GetNextIndex(); got != own(m.p) {
+			R.Violate("C16:restart:next-index-not-the-members-own",
+				fmt.Sprintf("two members on one cluster kv, the leader's persisted next index is %d, the follower's %d: the %s starts with next index %d", own(c.LP), own(c.FP), m.n.srv.name, got), replayOf())
+			break
+		}
+	}
 	for _, r := range c.Regions {
 		leader.srv.bc.PutRegion(r.info())
 	}
@@ -1405,6 +1519,20 @@ func runSync(R *res.Result, c Case) Case {
 		panic(err)
 	}
 	sort.Slice(c.FSaved, func(i, j int) bool { return c.FSaved[i] < c.FSaved[j] })
+	// the restart clause at the end of the case (everything delivered, both members quiet): each member restarted now
+	// comes back with its OWN next index, less at most the flush interval - whatever the other member wrote meanwhile
+	if stub.didPanic() == "" {
+		for _, n := range []*node{leader, follower} {
+			before := n.syncer.VerifHistory().GetNextIndex()
+			after := syncer.NewRegionSyncer(n.srv).VerifHistory().GetNextIndex()
+			if after > before || before-after >= uint64(syncer.VerifDefaultFlushCount) {
+				R.Violate("C16:restart:member-next-index-lag",
+					fmt.Sprintf("two members on one cluster kv (leader's next index %d, follower's %d at the end of the case): the %s restarted now comes back with next index %d instead of (%d-%d, %d]",
+						leader.syncer.VerifHistory().GetNextIndex(), follower.syncer.VerifHistory().GetNextIndex(), n.srv.name, after, before, syncer.VerifDefaultFlushCount, before), replayOf())
+				break
+			}
+		}
+	}
 	// ---- tear down in the background (StopSyncWithLeader sleeps 1 s after the stream breaks) ----
 	cleanup.Add(1)
 	go func() {
@@ -1866,6 +1994,7 @@ func main() {
 			*ncut *= 4
 		}
 		bigWindowProbe(R)
+		fullSyncTwiceProbe(R, *seed)
 		// S8 regression (fixed by 3a92c2a): a reset is persisted
 		emit(runBuf(R, 10, []BufOp{{K: "record", Arg: 1, OK: true}, {K: "reset", Arg: 1000000, OK: true}, {K: "record", Arg: 2, OK: true},
 			{K: "next"}, {K: "restart", Arg: 10, OK: true}, {K: "next"}}))
